@@ -760,6 +760,10 @@ pub struct Search {
     pub max_shrink_iters: u32,
 }
 
+/// Wall-clock budget for shrinking one failure (ms); 0 = unlimited. End-to-end checks set it
+/// through the environment-independent default below (pure checks shrink in microseconds).
+pub const MAX_SHRINK_TIME_MS: u32 = 90_000;
+
 /// Runs a proptest search split over worker threads. `test` must be a pure function of the case
 /// (or, for end-to-end checks, schedule-independent by the property's own wording).
 pub fn prop_search<S, F, J>(run: &Run, cfg: Search, strategy: impl Fn() -> S + Sync, test: F, to_json: J)
@@ -788,6 +792,7 @@ where
                         cases: per as u32,
                         failure_persistence: None,
                         max_shrink_iters,
+                        max_shrink_time: MAX_SHRINK_TIME_MS,
                         max_global_rejects: 65536,
                         ..Config::default()
                     };
